@@ -22,7 +22,7 @@ type step struct {
 	Name string `json:"name"` // unique name inside the rule (plan / condition header key)
 	Cont bool   `json:"continue_on_error,omitempty"`
 	FB   bool   `json:"fallback_on_error,omitempty"`
-	Cond string `json:"if,omitempty"` // "" | "hdr" | CEL on Error for error handlers
+	Cond string `json:"if,omitempty"`   // "" | "hdr" | CEL on Error for error handlers
 	Real string `json:"real,omitempty"` // behaviour class of a real mechanism
 }
 
@@ -472,7 +472,7 @@ func TestC01(t *testing.T) {
 					eff.OnErr = defPipe.OnErr
 				}
 				pipes = append(pipes, ownP) // loaded as defined
-				partial[id] = eff          // judged by its effective pipeline
+				partial[id] = eff           // judged by its effective pipeline
 			}
 		}
 		tr, err := newTrio(trioOptions{
